@@ -31,7 +31,7 @@ namespace foonathan
                 // memory is taken from fixed_memory_stack, it must be sufficient
                 free_list_array(fixed_memory_stack& stack, const char* end,
                                 std::size_t max_node_size) noexcept
-                : no_elements_(AccessPolicy::index_from_size(max_node_size) - min_size_index() + 1)
+                : no_elements_(last_index(max_node_size) - min_size_index() + 1)
                 {
                     array_ = static_cast<FreeList*>(
                         stack.allocate(end, no_elements_ * sizeof(FreeList), alignof(FreeList)));
@@ -91,6 +91,14 @@ namespace foonathan
                 static std::size_t min_size_index() noexcept
                 {
                     return AccessPolicy::index_from_size(FreeList::min_element_size);
+                }
+
+                // index of the list for the biggest nodes: a maximum below the smallest node a list can manage
+                // still needs that one list
+                static std::size_t last_index(std::size_t max_node_size) noexcept
+                {
+                    auto i = AccessPolicy::index_from_size(max_node_size);
+                    return i < min_size_index() ? min_size_index() : i;
                 }
 
                 FreeList*   array_;
